@@ -51,6 +51,10 @@ TABLE = {
    text='fault enumeration on real Client/AsyncClient over a scripted transport: every failure pattern over {transport refusal, namespace refusal, loss during the attempt} up to length 3-4 (T/N up to 6) crossed with the full 108-point grid of delay/delay_max/randomization/attempts, abort by shutdown() at every back-off wait, every intentional cause of ending, and further losses after a successful reconnection; attempts are read at the scripted engine.io connect, back-off delays at the wait primitive (VirtualEvent / wrapped asyncio.wait_for on a virtual loop) and compared with the documented formula',
    note='jitter is judged as a range; the thread-schedule window between connect() returning in the reconnect thread and the task reference being cleared is outside the quantifier; one known finding (stale reconnect task after an unsuccessful effort) pinned by the suite',
    tech='runtime monitoring: fault enumeration with scripted transport, back-off oracle on virtual waits'),
+ 'C11': dict(cat='fault_enumeration',
+   text='client generations built from the quantifier\'s history elements run one after another on one persistent real server; for a history with K application-handler invocations every single fault position (that invocation raises; quick tier samples up to 7) plus the fault-free run, every end cause, optional application operations on the departed sid; after each transport ends: API-level residue (rooms, is_connected, get_environ, get_participants over all rooms), manager listings and the number of objects reachable from the server (gc reachability) must equal the baseline taken after a clean warm-up generation, and a probe client must be served exactly as on the fresh server',
+   note='closed engine.io sockets are removed the way engineio.Server.handle_request does; GraphSize skips types/modules/functions/loggers and shared immutable scalars; single-host managers',
+   tech='runtime monitoring: fault injection at every handler invocation + leak monitor (gc reachability count) + API residue + differential probe trace'),
 }
 # filled in as checks are built; see bottom of file for the not-built reason
 
